@@ -440,6 +440,46 @@ Qed.
 
 End TB.
 
+(** ** Canonicity inside one table *)
+
+(** two references of one table with the same value under every choice are equal *)
+Lemma den_canon : forall s r1 r2 phi, BddOK s -> Den s r1 phi -> Den s r2 phi -> r1 = r2.
+Proof.
+  intros s r1 r2 phi B [O1 D1] [O2 D2].
+  apply (canon_kary s (bo_wf s B) (bdd_kary s B) r1 r2 O1 O2).
+  intros c Hc. apply (bchoice_ok s c B) in Hc. rewrite (D1 c Hc), (D2 c Hc). reflexivity.
+Qed.
+
+(** the cofactor of an existing function w.r.t. a level at or above its root exists *)
+Lemma den_cof_exists : forall s r Phi lvl i, BddOK s -> Den s r Phi ->
+  lvl <= rlevel s r -> lvl < nlevels s -> i < 2 -> exists r', Den s r' (cofn Phi lvl i).
+Proof.
+  intros s r Phi lvl i B D Hle Hl Hi. pose proof (bo_wf s B) as H.
+  destruct r as [t|id].
+  - exists (RT t). apply den_skip; auto.
+  - destruct (proj1 D) as [nd En]. rewrite (rlevel_node s id nd En) in Hle.
+    destruct (cof2_ok s id nd Phi lvl B D En Hle) as [ft [fe [_ [D0 [D1 _]]]]].
+    destruct i as [|[|k]]; [exists ft; exact D0 | exists fe; exact D1 | lia].
+Qed.
+
+(** if the function to be built already has a reference, [mk_node] returns it
+    and leaves the table alone *)
+Lemma mk_node_stable : forall s lvl t e P0 P1 s' h r0, BddOK s -> lvl < nlevels s ->
+  Den s t P0 -> Den s e P1 -> indep P0 (S lvl) -> indep P1 (S lvl) ->
+  mk_node s lvl [E t; E e] = (s', h) ->
+  Den s r0 (fun c => if Nat.eqb (c lvl) 0 then P0 c else P1 c) ->
+  s' = s /\ eref h = r0.
+Proof.
+  intros s lvl t e P0 P1 s' h r0 B Hl Dt De I0 I1 Hm D0.
+  destruct (node_step s lvl t e P0 P1 s' h B Hl Dt De I0 I1 Hm) as [B' [X Dh]].
+  assert (Eh : eref h = r0) by (apply (den_canon s' _ _ _ B' Dh (den_extends s s' _ _ B X D0))).
+  split; [|exact Eh].
+  unfold mk_node in Hm. destruct (all_equal [E t; E e]); [inversion Hm; reflexivity|].
+  unfold get_or_insert in Hm. destruct (find_dup s lvl [E t; E e]); inversion Hm; [reflexivity|].
+  exfalso. subst h. simpl in Eh. subst r0. destruct (proj1 D0) as [nd En].
+  rewrite fresh_id_free in En. discriminate.
+Qed.
+
 Lemma op_code_inj : forall o o', op_code o = op_code o' -> o = o'.
 Proof. intros [] [] E; simpl in E; try discriminate; reflexivity. Qed.
 
@@ -503,21 +543,26 @@ Qed.
 Definition result_ok (s : snap) (c : C) (res : option (snap * C * ref))
   (Phi : (nat -> nat) -> bool) : Prop :=
   exists s' c' r, res = Some (s', c', r) /\
-    BddOK s' /\ extends s s' /\ CacheOK s' c' /\ Den s' r Phi.
+    BddOK s' /\ extends s s' /\ CacheOK s' c' /\ Den s' r Phi /\
+    (* if the result function already has a reference, that reference is
+       returned and the table is unchanged *)
+    (forall r0, Den s r0 Phi -> s' = s /\ r = r0).
 
 Lemma result_ok_ext : forall s c res Phi Phi', result_ok s c res Phi ->
   (forall c0, bchoice c0 -> Phi c0 = Phi' c0) -> result_ok s c res Phi'.
 Proof.
-  intros s c res Phi Phi' [s' [c' [r [E [B [X [O D]]]]]]] Hp.
+  intros s c res Phi Phi' [s' [c' [r [E [B [X [O [D S]]]]]]]] Hp.
   exists s', c', r. split; [exact E|]. split; [exact B|]. split; [exact X|]. split; [exact O|].
-  apply (den_ext s' r Phi Phi' D Hp).
+  split; [apply (den_ext s' r Phi Phi' D Hp)|].
+  intros r0 D0. apply S. apply (den_ext s r0 Phi' Phi D0). intros c0 Hc. symmetry. apply Hp. exact Hc.
 Qed.
 
 Lemma result_ok_here : forall s c r Phi, BddOK s -> CacheOK s c -> Den s r Phi ->
   result_ok s c (Some (s, c, r)) Phi.
 Proof.
   intros s c r Phi B O D. exists s, c, r.
-  split; [reflexivity|]. split; [exact B|]. split; [apply extends_refl|]. split; [exact O | exact D].
+  split; [reflexivity|]. split; [exact B|]. split; [apply extends_refl|]. split; [exact O|].
+  split; [exact D|]. intros r0 D0. split; [reflexivity | apply (den_canon s r r0 Phi B D D0)].
 Qed.
 
 (** ** [apply_not] *)
@@ -585,12 +630,12 @@ Proof.
       pose proof (den_child s id nd 1 b phi B D E Hb) as Db.
       destruct (child_nth s H id nd 0 a E Ha) as [Oa La].
       destruct (child_nth s H id nd 1 b E Hb) as [Ob Lb].
-      destruct (IH s c (eref a) _ B O Da ltac:(lia)) as [s1 [c1 [t [E1 [B1 [X1 [O1 D1]]]]]]].
+      destruct (IH s c (eref a) _ B O Da ltac:(lia)) as [s1 [c1 [t [E1 [B1 [X1 [O1 [D1 S1]]]]]]]].
       rewrite E1.
       assert (Db1 : Den s1 (eref b) (cofn phi (nlevel nd) 1)) by (apply (den_extends s s1 _ _ B X1 Db)).
       assert (Hf1 : nlevels s1 - rlevel s1 (eref b) < n)
         by (rewrite (ext_nlevels _ _ X1), (ext_rlevel _ _ _ X1 Ob); lia).
-      destruct (IH s1 c1 (eref b) _ B1 O1 Db1 Hf1) as [s2 [c2 [e [E2 [B2 [X2 [O2 D2]]]]]]].
+      destruct (IH s1 c1 (eref b) _ B1 O1 Db1 Hf1) as [s2 [c2 [e [E2 [B2 [X2 [O2 [D2 S2]]]]]]]].
       rewrite E2.
       rewrite (wf_stored s H id nd E).
       destruct (mk_node s2 (nlevel nd) [Build.E t; Build.E e]) as [s3 h] eqn:Em.
@@ -605,14 +650,29 @@ Proof.
         by (rewrite (ext_nlevels _ _ X2), (ext_nlevels _ _ X1); exact Hlv).
       destruct (node_step s2 (nlevel nd) t e _ _ s3 h B2 Hl2 D1' D2 I0 I1 Em) as [B3 [X3 Dh]].
       assert (X03 : extends s s3) by (eapply extends_trans; [|exact X3]; eapply extends_trans; eauto).
-      assert (Dres : Den s3 (eref h) (fun c0 => negb (phi c0))).
-      { apply (den_ext _ _ _ _ Dh). intros c0 Hc.
+      assert (Heq : forall c0, bchoice c0 ->
+                (if Nat.eqb (c0 (nlevel nd)) 0 then negb (cofn phi (nlevel nd) 0 c0)
+                 else negb (cofn phi (nlevel nd) 1 c0)) = negb (phi c0)).
+      { intros c0 Hc.
         rewrite (shannon_pick c0 (nlevel nd) (fun i => negb (cofn phi (nlevel nd) i c0)) Hc).
         rewrite (den_upd_self s (RN id) phi c0 (nlevel nd) H D Hc). reflexivity. }
+      assert (Dres : Den s3 (eref h) (fun c0 => negb (phi c0))) by (apply (den_ext _ _ _ _ Dh Heq)).
       exists s3, (cadd c2 code_not [RN id] (eref h)), (eref h).
-      split; [reflexivity|]. split; [exact B3|]. split; [exact X03|]. split; [|exact Dres].
-      apply cacheok_add; [apply (cacheok_extends s2 s3 c2 B2 X3 O2)|].
-      intros _. exists phi. split; [apply (den_extends s s3 _ _ B X03 D) | exact Dres].
+      split; [reflexivity|]. split; [exact B3|]. split; [exact X03|].
+      split; [|split; [exact Dres|]].
+      { apply cacheok_add; [apply (cacheok_extends s2 s3 c2 B2 X3 O2)|].
+        intros _. exists phi. split; [apply (den_extends s s3 _ _ B X03 D) | exact Dres]. }
+      intros r0 D0.
+      assert (J : indep (fun c0 => negb (phi c0)) (nlevel nd))
+        by (intros x y Hx Hy Exy; f_equal; apply Ip; auto).
+      assert (L0 : nlevel nd <= rlevel s r0)
+        by (apply (den_level s r0 _ (nlevel nd) B D0 ltac:(lia) J)).
+      destruct (den_cof_exists s r0 _ (nlevel nd) 0 B D0 L0 Hlv ltac:(lia)) as [q0 Dq0].
+      destruct (den_cof_exists s r0 _ (nlevel nd) 1 B D0 L0 Hlv ltac:(lia)) as [q1 Dq1].
+      destruct (S1 q0 Dq0) as [Es1 Et]. subst s1 t.
+      destruct (S2 q1 Dq1) as [Es2 Ee]. subst s2 e.
+      destruct (mk_node_stable s (nlevel nd) q0 q1 _ _ s3 h r0 B Hlv D1' D2 I0 I1 Em) as [Es3 Eh]; auto.
+      apply (den_ext s r0 _ _ D0). intros c0 Hc. symmetry. apply Heq. exact Hc.
 Qed.
 
 (** ** [apply_bin] *)
@@ -685,13 +745,13 @@ Proof.
       destruct (cof2_ok s idg gnd psi lvl B Dg Eg ltac:(lia)) as [gt' [ge [Ecg [Dgt [Dge [Lgt Lge]]]]]].
       rewrite Ecf, Ecg.
       assert (Hlvl : lvl < nlevels s) by lia.
-      destruct (IH s c ft gt' _ _ B O Dft Dgt ltac:(lia)) as [s1 [c1 [t [E1 [B1 [X1 [O1 D1]]]]]]].
+      destruct (IH s c ft gt' _ _ B O Dft Dgt ltac:(lia)) as [s1 [c1 [t [E1 [B1 [X1 [O1 [D1 S1]]]]]]]].
       rewrite E1.
       assert (Dfe1 : Den s1 fe (cofn phi lvl 1)) by (apply (den_extends s s1 _ _ B X1 Dfe)).
       assert (Dge1 : Den s1 ge (cofn psi lvl 1)) by (apply (den_extends s s1 _ _ B X1 Dge)).
       assert (Hf1 : nlevels s1 - Nat.min (rlevel s1 fe) (rlevel s1 ge) < n).
       { rewrite (ext_nlevels _ _ X1), (ext_rlevel _ _ _ X1 (proj1 Dfe)), (ext_rlevel _ _ _ X1 (proj1 Dge)). lia. }
-      destruct (IH s1 c1 fe ge _ _ B1 O1 Dfe1 Dge1 Hf1) as [s2 [c2 [e [E2 [B2 [X2 [O2 D2]]]]]]].
+      destruct (IH s1 c1 fe ge _ _ B1 O1 Dfe1 Dge1 Hf1) as [s2 [c2 [e [E2 [B2 [X2 [O2 [D2 S2]]]]]]]].
       rewrite E2.
       destruct (mk_node s2 lvl [Build.E t; Build.E e]) as [s3 h] eqn:Em.
       assert (D1' : Den s2 t (fun c0 => eval_bop op (cofn phi lvl 0 c0) (cofn psi lvl 0 c0)))
@@ -710,22 +770,41 @@ Proof.
       destruct (node_step s2 lvl t e _ _ s3 h B2 Hl2 D1' D2 (II 0 ltac:(lia)) (II 1 ltac:(lia)) Em)
         as [B3 [X3 Dh]].
       assert (X03 : extends s s3) by (eapply extends_trans; [|exact X3]; eapply extends_trans; eauto).
-      assert (Dres : Den s3 (eref h) (fun c0 => eval_bop op (phi c0) (psi c0))).
-      { apply (den_ext _ _ _ _ Dh). intros c0 Hc.
+      assert (Heq : forall c0, bchoice c0 ->
+                (if Nat.eqb (c0 lvl) 0 then eval_bop op (cofn phi lvl 0 c0) (cofn psi lvl 0 c0)
+                 else eval_bop op (cofn phi lvl 1 c0) (cofn psi lvl 1 c0))
+                = eval_bop op (phi c0) (psi c0)).
+      { intros c0 Hc.
         rewrite (shannon_pick c0 lvl
                    (fun i => eval_bop op (cofn phi lvl i c0) (cofn psi lvl i c0)) Hc).
         rewrite (den_upd_self s _ phi c0 lvl H Df Hc), (den_upd_self s _ psi c0 lvl H Dg Hc).
         reflexivity. }
+      assert (Dres : Den s3 (eref h) (fun c0 => eval_bop op (phi c0) (psi c0)))
+        by (apply (den_ext _ _ _ _ Dh Heq)).
       exists s3, (cadd c2 (op_code op) [a; b] (eref h)), (eref h).
-      split; [reflexivity|]. split; [exact B3|]. split; [exact X03|]. split; [|exact Dres].
-      apply cacheok_add; [apply (cacheok_extends s2 s3 c2 B2 X3 O2)|].
-      intros o Ho. apply op_code_inj in Ho. subst o.
-      pose proof (den_extends s s3 _ _ B X03 Df) as Df3.
-      pose proof (den_extends s s3 _ _ B X03 Dg) as Dg3.
-      destruct Hab as [[-> ->]|[-> [-> Hcomm]]].
-      * exists phi, psi. auto.
-      * exists psi, phi. split; [exact Dg3|]. split; [exact Df3|].
-        apply (den_ext _ _ _ _ Dres). intros c0 _. apply Hcomm.
+      split; [reflexivity|]. split; [exact B3|]. split; [exact X03|].
+      split; [|split; [exact Dres|]].
+      { apply cacheok_add; [apply (cacheok_extends s2 s3 c2 B2 X3 O2)|].
+        intros o Ho. apply op_code_inj in Ho. subst o.
+        pose proof (den_extends s s3 _ _ B X03 Df) as Df3.
+        pose proof (den_extends s s3 _ _ B X03 Dg) as Dg3.
+        destruct Hab as [[-> ->]|[-> [-> Hcomm]]].
+        * exists phi, psi. auto.
+        * exists psi, phi. split; [exact Dg3|]. split; [exact Df3|].
+          apply (den_ext _ _ _ _ Dres). intros c0 _. apply Hcomm. }
+      intros r0 D0.
+      assert (J : indep (fun c0 => eval_bop op (phi c0) (psi c0)) lvl).
+      { intros x y Hx Hy Exy. f_equal.
+        - apply (indep_mono phi _ lvl Ip ltac:(lia)); auto.
+        - apply (indep_mono psi _ lvl Iq ltac:(lia)); auto. }
+      assert (L0 : lvl <= rlevel s r0) by (apply (den_level s r0 _ lvl B D0 ltac:(lia) J)).
+      destruct (den_cof_exists s r0 _ lvl 0 B D0 L0 Hlvl ltac:(lia)) as [q0 Dq0].
+      destruct (den_cof_exists s r0 _ lvl 1 B D0 L0 Hlvl ltac:(lia)) as [q1 Dq1].
+      destruct (S1 q0 Dq0) as [Es1 Et]. subst s1 t.
+      destruct (S2 q1 Dq1) as [Es2 Ee]. subst s2 e.
+      destruct (mk_node_stable s lvl q0 q1 _ _ s3 h r0 B Hlvl D1' D2 (II 0 ltac:(lia)) (II 1 ltac:(lia)) Em)
+        as [Es3 Eh]; auto.
+      apply (den_ext s r0 _ _ D0). intros c0 Hc. symmetry. apply Heq. exact Hc.
 Qed.
 
 (** ** [apply_ite] *)
@@ -838,7 +917,7 @@ Proof.
       destruct (cof2_ok s idh hnd theta lvl B Dh Eh ltac:(lia)) as [ht [he [Ech [Dht [Dhe [Lht Lhe]]]]]].
       rewrite Ecf, Ecg, Ech.
       assert (Hlvl : lvl < nlevels s) by lia.
-      destruct (IH s c ft gt' ht _ _ _ B O Dft Dgt Dht ltac:(lia)) as [s1 [c1 [t [E1 [B1 [X1 [O1 D1]]]]]]].
+      destruct (IH s c ft gt' ht _ _ _ B O Dft Dgt Dht ltac:(lia)) as [s1 [c1 [t [E1 [B1 [X1 [O1 [D1 S1]]]]]]]].
       rewrite E1.
       assert (Dfe1 : Den s1 fe (cofn phi lvl 1)) by (apply (den_extends s s1 _ _ B X1 Dfe)).
       assert (Dge1 : Den s1 ge (cofn psi lvl 1)) by (apply (den_extends s s1 _ _ B X1 Dge)).
@@ -846,7 +925,7 @@ Proof.
       assert (Hf1 : nlevels s1 - Nat.min (Nat.min (rlevel s1 fe) (rlevel s1 ge)) (rlevel s1 he) < n).
       { rewrite (ext_nlevels _ _ X1), (ext_rlevel _ _ _ X1 (proj1 Dfe)),
                 (ext_rlevel _ _ _ X1 (proj1 Dge)), (ext_rlevel _ _ _ X1 (proj1 Dhe)). lia. }
-      destruct (IH s1 c1 fe ge he _ _ _ B1 O1 Dfe1 Dge1 Dhe1 Hf1) as [s2 [c2 [e [E2 [B2 [X2 [O2 D2]]]]]]].
+      destruct (IH s1 c1 fe ge he _ _ _ B1 O1 Dfe1 Dge1 Dhe1 Hf1) as [s2 [c2 [e [E2 [B2 [X2 [O2 [D2 S2]]]]]]]].
       rewrite E2.
       destruct (mk_node s2 lvl [Build.E t; Build.E e]) as [s3 r] eqn:Em.
       assert (D1' : Den s2 t (fun c0 => if cofn phi lvl 0 c0 then cofn psi lvl 0 c0 else cofn theta lvl 0 c0))
@@ -868,20 +947,41 @@ Proof.
       destruct (node_step s2 lvl t e _ _ s3 r B2 Hl2 D1' D2 (II 0 ltac:(lia)) (II 1 ltac:(lia)) Em)
         as [B3 [X3 Dr]].
       assert (X03 : extends s s3) by (eapply extends_trans; [|exact X3]; eapply extends_trans; eauto).
-      assert (Dres : Den s3 (eref r) (fun c0 => if phi c0 then psi c0 else theta c0)).
-      { apply (den_ext _ _ _ _ Dr). intros c0 Hc.
+      assert (Heq : forall c0, bchoice c0 ->
+                (if Nat.eqb (c0 lvl) 0
+                 then (if cofn phi lvl 0 c0 then cofn psi lvl 0 c0 else cofn theta lvl 0 c0)
+                 else (if cofn phi lvl 1 c0 then cofn psi lvl 1 c0 else cofn theta lvl 1 c0))
+                = if phi c0 then psi c0 else theta c0).
+      { intros c0 Hc.
         rewrite (shannon_pick c0 lvl
                    (fun i => if cofn phi lvl i c0 then cofn psi lvl i c0 else cofn theta lvl i c0) Hc).
         rewrite (den_upd_self s _ phi c0 lvl H Df Hc), (den_upd_self s _ psi c0 lvl H Dg Hc),
                 (den_upd_self s _ theta c0 lvl H Dh Hc).
         reflexivity. }
+      assert (Dres : Den s3 (eref r) (fun c0 => if phi c0 then psi c0 else theta c0))
+        by (apply (den_ext _ _ _ _ Dr Heq)).
       exists s3, (cadd c2 code_ite [RN idf; RN idg; RN idh] (eref r)), (eref r).
-      split; [reflexivity|]. split; [exact B3|]. split; [exact X03|]. split; [|exact Dres].
-      apply cacheok_add; [apply (cacheok_extends s2 s3 c2 B2 X3 O2)|].
-      intros _. exists phi, psi, theta.
-      split; [apply (den_extends s s3 _ _ B X03 Df)|].
-      split; [apply (den_extends s s3 _ _ B X03 Dg)|].
-      split; [apply (den_extends s s3 _ _ B X03 Dh) | exact Dres].
+      split; [reflexivity|]. split; [exact B3|]. split; [exact X03|].
+      split; [|split; [exact Dres|]].
+      { apply cacheok_add; [apply (cacheok_extends s2 s3 c2 B2 X3 O2)|].
+        intros _. exists phi, psi, theta.
+        split; [apply (den_extends s s3 _ _ B X03 Df)|].
+        split; [apply (den_extends s s3 _ _ B X03 Dg)|].
+        split; [apply (den_extends s s3 _ _ B X03 Dh) | exact Dres]. }
+      intros r0 D0.
+      assert (J : indep (fun c0 => if phi c0 then psi c0 else theta c0) lvl).
+      { intros x y Hx Hy Exy.
+        rewrite (indep_mono phi _ lvl Ip ltac:(lia) x y Hx Hy Exy).
+        rewrite (indep_mono psi _ lvl Iq ltac:(lia) x y Hx Hy Exy).
+        rewrite (indep_mono theta _ lvl Ir ltac:(lia) x y Hx Hy Exy). reflexivity. }
+      assert (L0 : lvl <= rlevel s r0) by (apply (den_level s r0 _ lvl B D0 ltac:(lia) J)).
+      destruct (den_cof_exists s r0 _ lvl 0 B D0 L0 Hlvl ltac:(lia)) as [q0 Dq0].
+      destruct (den_cof_exists s r0 _ lvl 1 B D0 L0 Hlvl ltac:(lia)) as [q1 Dq1].
+      destruct (S1 q0 Dq0) as [Es1 Et]. subst s1 t.
+      destruct (S2 q1 Dq1) as [Es2 Ee]. subst s2 e.
+      destruct (mk_node_stable s lvl q0 q1 _ _ s3 r r0 B Hlvl D1' D2 (II 0 ltac:(lia)) (II 1 ltac:(lia)) Em)
+        as [Es3 Ehr]; auto.
+      apply (den_ext s r0 _ _ D0). intros c0 Hc. symmetry. apply Heq. exact Hc.
   - (* g inner, h = true: f -> g *)
     pose proof (view_den_T s h true theta Dh Vh) as U.
     apply (result_ok_ext s c _ (fun c0 => eval_bop OImp (phi c0) (psi c0))).
@@ -982,7 +1082,7 @@ Proof.
   intros fuel s c f B O Hf Hfuel. destruct (den_exists s f B Hf) as [phi D].
   pose proof (rlevel_le s (bo_wf s B) f). unfold FUEL in Hfuel.
   destruct (apply_not_ok C cget cadd Hlossy fuel s c f phi B O D ltac:(lia))
-    as [s' [c' [r [E [B' [X [O' D']]]]]]].
+    as [s' [c' [r [E [B' [X [O' [D' _]]]]]]]].
   exists s', c', r. repeat (split; [assumption|]). split; [apply (proj1 D')|].
   intros c0 Hc. exists (phi c0). split; [apply (proj2 D c0 Hc) | apply (proj2 D' c0 Hc)].
 Qed.
@@ -998,7 +1098,7 @@ Proof.
   destruct (den_exists s f B Hf) as [phi Df]. destruct (den_exists s g B Hg) as [psi Dg].
   unfold FUEL in Hfuel.
   destruct (apply_bin_ok gt C cget cadd Hlossy op fuel s c f g phi psi B O Df Dg ltac:(lia))
-    as [s' [c' [r [E [B' [X [O' D']]]]]]].
+    as [s' [c' [r [E [B' [X [O' [D' _]]]]]]]].
   exists s', c', r. repeat (split; [assumption|]). split; [apply (proj1 D')|].
   intros c0 Hc. exists (phi c0), (psi c0).
   split; [apply (proj2 Df c0 Hc)|]. split; [apply (proj2 Dg c0 Hc) | apply (proj2 D' c0 Hc)].
@@ -1016,7 +1116,7 @@ Proof.
   destruct (den_exists s f B Hf) as [phi Df]. destruct (den_exists s g B Hg) as [psi Dg].
   destruct (den_exists s h B Hh) as [theta Dh]. unfold FUEL in Hfuel.
   destruct (apply_ite_ok gt C cget cadd Hlossy fuel s c f g h phi psi theta B O Df Dg Dh ltac:(lia))
-    as [s' [c' [r [E [B' [X [O' D']]]]]]].
+    as [s' [c' [r [E [B' [X [O' [D' _]]]]]]]].
   exists s', c', r. repeat (split; [assumption|]). split; [apply (proj1 D')|].
   intros c0 Hc. exists (phi c0), (psi c0), (theta c0).
   split; [apply (proj2 Df c0 Hc)|]. split; [apply (proj2 Dg c0 Hc)|].
@@ -1025,12 +1125,3 @@ Qed.
 
 End Top.
 
-(** ** Canonicity of results (C06) *)
-
-(** two references of one table with the same value under every choice are equal *)
-Lemma den_canon : forall s r1 r2 phi, BddOK s -> Den s r1 phi -> Den s r2 phi -> r1 = r2.
-Proof.
-  intros s r1 r2 phi B [O1 D1] [O2 D2].
-  apply (canon_kary s (bo_wf s B) (bdd_kary s B) r1 r2 O1 O2).
-  intros c Hc. apply (bchoice_ok s c B) in Hc. rewrite (D1 c Hc), (D2 c Hc). reflexivity.
-Qed.
